@@ -6,6 +6,7 @@ CONSTANTS
   Kinds = {"close", "keep", "ws"}
   SigTwice = FALSE
   Dev = {"StopDropsQueue"}
+  Faults = {}
 SPECIFICATION Spec
 INVARIANTS Inv_DispatchedKept
 CHECK_DEADLOCK FALSE
